@@ -82,20 +82,21 @@ theorem run_riBody_orphan (x : Nat) (e : TokEntry) (g : Nat) (s : St)
     (hc : s.tl x = none → s.cache x = none)
     (hpx : ∀ p, e.parent = some p → p ≠ x)
     (hg : s.next + 1 ≤ g)
-    (hl : ∀ c ∈ s.children x, (s.ids c).isSome ∧ c ≠ x ∧ (c ≠ 0 → s.cache c = some false)) :
+    (hl : ∀ c ∈ s.children x, (s.ids c).isSome ∧ c ≠ x ∧ (c ≠ 0 → s.cache c = some false))
+    (hdk : destroyKey x e = some (ckey x e)) :
     run (riBody x e false (orphanLoop g)) s =
       (.ok (), orphanL (s.children x) (St.delKey (match e.parent with
-                 | some p => (rbt x (clearCub x s)).delKey (.par p x)
-                 | none => rbt x (clearCub x s)) (.acc x))) := by
+                 | some p => (rbt x (clearCub (ckey x e) s)).delKey (.par p x)
+                 | none => rbt x (clearCub (ckey x e) s)) (.acc x))) := by
   unfold riBody
-  simp only [bind_eq, pure_eq, run_bind, run_cubDestroy]
-  rw [run_revokeByToken x (clearCub x s) hc]
+  simp only [hdk, bind_eq, pure_eq, run_bind, run_cubDestroy]
+  rw [run_revokeByToken x (clearCub (ckey x e) s) hc]
   have hlen := length_children_le s x
   cases hpar : e.parent with
   | none =>
     simp only [run_bind, run_ret, run_delKey, Bool.not_false, if_true, run_listPar]
-    have hch : ((rbt x (clearCub x s)).delKey (.acc x)).children x = s.children x :=
-      children_congr (σ := (rbt x (clearCub x s)).delKey (.acc x)) (s := s) rfl rfl x (fun _ => rfl)
+    have hch : ((rbt x (clearCub (ckey x e) s)).delKey (.acc x)).children x = s.children x :=
+      children_congr (σ := (rbt x (clearCub (ckey x e) s)).delKey (.acc x)) (s := s) rfl rfl x (fun _ => rfl)
     rw [hch]
     rw [run_orphanLoop _ g _ (by omega) (by
       intro c hcm
@@ -105,8 +106,8 @@ theorem run_riBody_orphan (x : Nat) (e : TokEntry) (g : Nat) (s : St)
       simp [h2, h3 h0])]
   | some p =>
     simp only [run_bind, run_ret, run_delKey, Bool.not_false, if_true, run_listPar]
-    have hch : (((rbt x (clearCub x s)).delKey (.par p x)).delKey (.acc x)).children x = s.children x := by
-      refine children_congr (σ := ((rbt x (clearCub x s)).delKey (.par p x)).delKey (.acc x)) (s := s) rfl rfl x
+    have hch : (((rbt x (clearCub (ckey x e) s)).delKey (.par p x)).delKey (.acc x)).children x = s.children x := by
+      refine children_congr (σ := ((rbt x (clearCub (ckey x e) s)).delKey (.par p x)).delKey (.acc x)) (s := s) rfl rfl x
         (fun c => ?_)
       show (if x = p ∧ c = x then false else s.par x c) = s.par x c
       have := hpx p hpar
@@ -127,7 +128,8 @@ theorem run_ri_tail_orphan (f x : Nat) (e : TokEntry) (s : St)
     (htl : s.tl x = none → s.cache x = none)
     (hpx : ∀ p, e.parent = some p → p ≠ x)
     (hg : s.next + 1 ≤ f + 1)
-    (hl : ∀ c ∈ s.children x, (s.ids c).isSome ∧ c ≠ x ∧ (c ≠ 0 → s.cache c = some false)) :
+    (hl : ∀ c ∈ s.children x, (s.ids c).isSome ∧ c ≠ x ∧ (c ≠ 0 → s.cache c = some false))
+    (hdk : destroyKey x e = some (ckey x e)) :
     run ((lookup (f+1) x true).bindE (riAfterLookup x false (orphanLoop (f+1)))) s = (.ok (), orphanSt x e s) := by
   rw [run_bindE, run_lookup f x true s (fun _ _ h0 => hcache h0)]
   simp only [lkRes, he, Bool.not_true, Bool.and_false, Bool.false_eq_true, if_false, riAfterLookup, bind_eq]
@@ -144,7 +146,7 @@ theorem run_ri_tail_orphan (f x : Nat) (e : TokEntry) (s : St)
       obtain ⟨h1, h2, h3⟩ := hl c hc
       refine ⟨?_, h2, h3⟩
       show ((if c = x then some _ else s.ids c)).isSome = true
-      simp [h2, h1])
+      simp [h2, h1]) hdk
   rw [hbody]
   simp only [run_riFinish_ok]
   congr 1
@@ -160,7 +162,7 @@ theorem run_ri_tail_orphan (f x : Nat) (e : TokEntry) (s : St)
        · subst h1; simp [hxch]
        · simp [h1])
     | (funext a b; by_cases h1 : a = _ <;> by_cases h2 : b = x <;> simp [h1, h2])
-    | (funext k; by_cases hk : k = .salted x <;> simp [hk])
+    | (funext k; by_cases hk : k = PKey.salted x <;> simp [hk])
 
 theorem run_revokeInternal_orphan (f x : Nat) (e : TokEntry) (s : St)
     (he : s.ids x = some e)
@@ -170,7 +172,8 @@ theorem run_revokeInternal_orphan (f x : Nat) (e : TokEntry) (s : St)
     (htl : s.tl x = none → s.cache x = none)
     (hpx : ∀ p, e.parent = some p → p ≠ x)
     (hg : s.next + 1 ≤ f + 1)
-    (hl : ∀ c ∈ s.children x, (s.ids c).isSome ∧ c ≠ x ∧ (c ≠ 0 → s.cache c = some false)) :
+    (hl : ∀ c ∈ s.children x, (s.ids c).isSome ∧ c ≠ x ∧ (c ≠ 0 → s.cache c = some false))
+    (hdk : destroyKey x e = some (ckey x e)) :
     run (revokeInternal (f+2) x false) s = (.ok (), orphanSt x e s) := by
   unfold revokeInternal
   simp only [bind_eq, pure_eq]
@@ -181,20 +184,20 @@ theorem run_revokeInternal_orphan (f x : Nat) (e : TokEntry) (s : St)
     | true => exact absurd hpx' hp
     | false =>
       simp only [Bool.true_and, Bool.false_eq_true, if_false]
-      exact run_ri_tail_orphan f x e s he hm hcache htl hpx hg hl
+      exact run_ri_tail_orphan f x e s he hm hcache htl hpx hg hl hdk
   | none =>
     simp only [Bool.false_and, Bool.false_eq_true, if_false]
     refine (run_ri_tail_orphan f x e { s with pend := fun k => if k = PKey.salted x then some true else s.pend k }
       he hm hcache htl hpx hg (by
         have : ({ s with pend := fun k => if k = PKey.salted x then some true else s.pend k } : St).children x
             = s.children x := children_congr (s := s) rfl rfl x (fun _ => rfl)
-        rw [this]; exact hl)).trans ?_
+        rw [this]; exact hl) hdk).trans ?_
     congr 1
     have hch : ({ s with pend := fun k => if k = PKey.salted x then some true else s.pend k } : St).children x
         = s.children x := children_congr (s := s) rfl rfl x (fun _ => rfl)
     apply St.ext' <;> simp only [orphanSt, orphanL, purge1, St.leasesOf, St.cubKeys, hch] <;> try rfl
     funext k
-    by_cases hk : k = .salted x <;> simp [hk]
+    by_cases hk : k = PKey.salted x <;> simp [hk]
 
 theorem Inv.child_facts {s : St} (hI : Inv s) {t : Nat} (ht : (s.ids t).isSome) :
     ∀ c ∈ s.children t, (∃ ec, s.ids c = some ec ∧ ec.parent = some t) ∧ t < c := by
@@ -237,7 +240,8 @@ theorem run_revokeOrphan {s : St} (hI : Inv s) (g : Nat) (hg : s.next + 1 ≤ g 
           intro c hc
           obtain ⟨⟨ec, hec, _⟩, hlt⟩ := hI.child_facts hts c hc
           refine ⟨by simp [hec], by omega, fun h0 => ?_⟩
-          rw [hI.cacheEq, hI.lease c ec hec h0])]
+          rw [hI.cacheEq, hI.lease c ec hec h0])
+        (by have := destroyKey_eq_routerKey t e (hI.fi.entryWf t e ht); rw [this.1, this.2])]
       rfl
 
 
@@ -275,7 +279,7 @@ theorem inv_orphanSt {s : St} (hI : Inv s) {t : Nat} {e : TokEntry} (ht : s.ids 
     split
     · simpa using hy
     · exact hy
-  refine ⟨⟨hσ.edge_lt, ?_, ?_, ?_, ?_, hσ.cubB, hσ.tixB, hσ.slIx⟩, ?_, ?_, ?_, ?_, ?_, ?_, ?_⟩
+  refine ⟨⟨hσ.edge_lt, ?_, ?_, ?_, ?_, hσ.cubB, ?_, ?_, hσ.tixB, hσ.slIx⟩, ?_, ?_, ?_, ?_, ?_, ?_, ?_⟩
   · intro p c h hp
     obtain ⟨hpt, hps⟩ := hlive p hp
     have hpσ : ((purge1 t e s).ids p).isSome := by simp [hpt, hps]
@@ -306,6 +310,23 @@ theorem inv_orphanSt {s : St} (hI : Inv s) {t : Nat} {e : TokEntry} (ht : s.ids 
     obtain ⟨ex, hex⟩ := Option.isSome_iff_exists.mp hxs
     have := hσ.tok x ex (by simp [hxt, hex])
     exact ⟨this.pend, this.cache, this.tlc⟩
+  · intro c k h
+    obtain ⟨y, ey, hy, hry⟩ := hσ.cubOwn c k h
+    have hyt : y ≠ t := by intro h'; subst h'; simp at hy
+    have hys : s.ids y = some ey := by simpa [hyt] using hy
+    by_cases hyc : y ∈ s.children t
+    · refine ⟨y, orphanE ey, by rw [hids]; simp [hyt, hyc, hys], ?_⟩
+      exact hry
+    · exact ⟨y, ey, by rw [hids]; simp [hyt, hyc, hys], hry⟩
+  · intro x e' h
+    rw [hids] at h
+    split at h
+    · cases h
+    · split at h
+      · cases hq : s.ids x with
+        | none => rw [hq] at h; cases h
+        | some q => rw [hq] at h; cases h; exact hI.fi.entryWf x q hq
+      · exact hI.fi.entryWf x e' h
   · intro x e' h
     rw [hids] at h
     split at h
@@ -336,7 +357,7 @@ theorem inv_orphanSt {s : St} (hI : Inv s) {t : Nat} {e : TokEntry} (ht : s.ids 
   · intro x hx
     have hdσ : Dead (purge1 t e s) x := by
       by_cases hxt : x = t
-      · subst hxt; exact purge1_dead hI.fi
+      · subst hxt; exact purge1_dead hI.fi ht
       · refine purge1_keeps_dead (hI.deadClean x ?_)
         rw [hids] at hx
         simp only [hxt, if_false] at hx
